@@ -73,7 +73,7 @@ type Option func(opts *Options)
 type BatchedWriter struct {
 	store          KVStore
 	writeWg        sync.WaitGroup
-	startStopMutex syncutils.Mutex
+	startStopMutex syncutils.RWMutex
 	autoStartOnce  sync.Once
 	running        atomic.Bool
 	scheduledCount atomic.Int32
@@ -91,7 +91,7 @@ func NewBatchedWriter(store KVStore, opts ...Option) *BatchedWriter {
 	return &BatchedWriter{
 		store:          store,
 		writeWg:        sync.WaitGroup{},
-		startStopMutex: syncutils.Mutex{},
+		startStopMutex: syncutils.RWMutex{},
 		batchQueue:     make(chan BatchWriteObject, options.queueSize),
 		flushChan:      make(chan struct{}, 1), // must be buffered with size 1 since no receiver is actively waiting.
 		opts:           options,
@@ -134,6 +134,11 @@ func (bw *BatchedWriter) Enqueue(object BatchWriteObject) {
 			bw.startBatchWriter()
 		}
 	})
+
+	// the read lock keeps StopBatchWriter from stopping the writer between the running check and the queue send
+	// (the object would be stranded in the queue and the send could block forever)
+	bw.startStopMutex.RLock()
+	defer bw.startStopMutex.RUnlock()
 
 	// abort if the BatchWriter has been stopped
 	if !bw.running.Load() {
